@@ -208,6 +208,7 @@ theorem unkIssues_wf (shape : List Field) (mode : Mode) (c : Option Mid) (es : L
     · rfl
     · split
       · next cm => exact allWf_map _ (wf_prepend _) _ (hm cm x)
+      · next cm => exact allWf_map _ (wf_prepend _) _ (hm cm x)
       · rfl
 
 theorem structFields_wf (fs : List (Nat × V)) (shape : List Field) : AllWf (structFields env fs shape) := by
@@ -439,5 +440,66 @@ theorem c04_inter_nil_path : ¬ c04_error_wf_full := by
 
 example : Res.wf (run {} (fun _ _ => .err (mk .invalidType []) []) (.slice {} .any 0 [.min 3])
     (.slice .any (some [.nil]))) = true := by decide
+
+/-! ## any nesting depth: induction over the fuel of `parseF`
+
+`c04_error_wf` is ONE level: it assumes the members' errors are well-formed (`hm`).  The statement for whole schema
+trees follows by induction over `Cont.parseF` (a composite runs its validator over the parses of its members one level
+down; leaves answer from `env`): only the LEAVES' errors are assumed well-formed. -/
+
+/-- **C04 (error shape, any nesting depth)**: for every schema table `defs`, fuel `k` (nesting depth unfolded), schema
+    `id` and input: if the leaves' own errors are well-formed then so is every error of the nested parse. -/
+theorem c04_error_wf_nested (cfg : Cfg) (defs : Mid → Def) (env : Env) (resv : Mid → V → V)
+    (hp : cfg.interPath = true) (hleaf : ∀ m x, AllWf (errs env m x)) :
+    ∀ (k : Nat) (id : Mid) (v : V), AllWf (errs (parseF cfg defs env resv k) id v) := by
+  intro k
+  induction k with
+  | zero => intro id v; exact hleaf id v
+  | succ n ih =>
+    intro id v
+    have e : parseF cfg defs env resv (n + 1) id v =
+        (match defs id with
+         | .leaf => env id v
+         | .node nd =>
+           match run cfg (parseF cfg defs env resv n) nd v with
+           | .ok => .ok (resv id v)
+           | .err [] => .ok (resv id v)
+           | .err (i :: is) => .err i is) := rfl
+    cases hd : defs id with
+    | leaf =>
+      have : parseF cfg defs env resv (n + 1) id v = env id v := by rw [e, hd]
+      unfold errs; rw [this]; exact hleaf id v
+    | node nd =>
+      have hw := c04_error_wf cfg (parseF cfg defs env resv n) nd v hp ih
+      cases hr : run cfg (parseF cfg defs env resv n) nd v with
+      | ok =>
+        have : parseF cfg defs env resv (n + 1) id v = .ok (resv id v) := by rw [e, hd]; simp only [hr]
+        unfold errs; rw [this]; rfl
+      | err is =>
+        cases is with
+        | nil =>
+          have : parseF cfg defs env resv (n + 1) id v = .ok (resv id v) := by rw [e, hd]; simp only [hr]
+          unfold errs; rw [this]; rfl
+        | cons i t =>
+          have : parseF cfg defs env resv (n + 1) id v = .err i t := by rw [e, hd]; simp only [hr]
+          unfold errs; rw [this]
+          rw [hr] at hw
+          simp only [Res.wf, Bool.and_eq_true] at hw
+          exact hw.2
+
+/-- the outcome of the nested parse is `ok` or an error with at least one issue (by the shape of `MRes`), all well-formed -/
+theorem c04_nested_outcome (cfg : Cfg) (defs : Mid → Def) (env : Env) (resv : Mid → V → V)
+    (hp : cfg.interPath = true) (hleaf : ∀ m x, AllWf (errs env m x)) (k : Nat) (id : Mid) (v : V) :
+    (∃ r, parseF cfg defs env resv k id v = .ok r) ∨
+    (∃ i t, parseF cfg defs env resv k id v = .err i t ∧ AllWf (i :: t)) := by
+  have h := c04_error_wf_nested cfg defs env resv hp hleaf k id v
+  unfold errs at h
+  cases hr : parseF cfg defs env resv k id v with
+  | ok r => exact Or.inl ⟨r, rfl⟩
+  | err i t => rw [hr] at h; exact Or.inr ⟨i, t, rfl, h⟩
+
+/-- hypotheses inhabited, two levels deep: a slice of slices over a failing leaf -/
+example : AllWf (errs (parseF {} (fun id => if id = 0 then .node (.slice {} .any 1 []) else if id = 1 then .node (.slice {} .any 2 [.min 1]) else .leaf)
+    (fun _ _ => .err (mk .invalidType []) []) (fun _ v => v) 3) 0 (.slice .any (some [.slice .any (some [.nil])]))) := by decide
 
 end Gozod.C04
